@@ -230,7 +230,7 @@ def calls_in(fn):
     return [n for n in walk_no_nested(fn) if isinstance(n, ast.Call)]
 
 
-def closure(repo, entries, extra_edges=None, max_depth=None, stop=None):
+def closure(repo, entries, extra_edges=None, max_depth=None, stop=None, loose=False):
     """call-graph closure: dict func_qual -> FunctionDef, following resolved calls.
     extra_edges(fn) -> iterable of FunctionDef (registry fan-out).  Nested functions of a
     visited function are included (they execute as part of it)."""
@@ -248,7 +248,7 @@ def closure(repo, entries, extra_edges=None, max_depth=None, stop=None):
             continue
         for n in ast.walk(fn):
             if isinstance(n, ast.Call):
-                for cal, _, _ in resolve_call(repo, n):
+                for cal, _, _ in (resolve_call_loose(repo, n) if loose else resolve_call(repo, n)):
                     if repo.func_qual(cal) not in seen:
                         work.append((cal, d + 1))
             elif isinstance(n, ast.Attribute) and isinstance(n.ctx, ast.Load):
